@@ -13,53 +13,89 @@ Proof. rewrite !len_app. lia. Qed.
 Definition rejected_at (p : parser) (off : Z) : Prop :=
   exists p', next p = Some ((G_Error, None), p') /\ perr p' = Some off /\ pst p' = pst p.
 
-Lemma fail_rejected p z a tok s st need r :
-  cur3 z a tok s -> r = fail_at p z st need ->
-  exists p', r = Some ((G_Error, None), p') /\ perr p' = Some (len a + len tok) /\ pst p' = st.
+(* the same with the complete description of the parser after the call: the cursor stands at offset off in
+   front of the remaining input s', P holds of needComma *)
+Definition rejected_to (p : parser) (off : Z) (s' : list Z) (P : bool -> Prop) : Prop :=
+  exists p' a' tok', next p = Some ((G_Error, None), p') /\ perr p' = Some off /\ pst p' = pst p /\
+    prd p' = prd p /\ cur3 (pz p') a' tok' s' /\ len a' + len tok' = off /\ P (pneed p').
+
+Lemma rejected_to_at p off s' P : rejected_to p off s' P -> rejected_at p off.
+Proof. intros (p' & a' & tok' & E & Hp & Hst & _). exists p'. auto. Qed.
+
+Lemma fail_to p z a tok s need off (P : bool -> Prop) r :
+  cur3 z a tok s -> r = fail_at p z (pst p) need -> len a + len tok = off -> P need ->
+  exists p' a' tok', r = Some ((G_Error, None), p') /\ perr p' = Some off /\ pst p' = pst p /\
+    prd p' = prd p /\ cur3 (pz p') a' tok' s /\ len a' + len tok' = off /\ P (pneed p').
 Proof.
-  intros Hc ->. unfold fail_at. eexists. split; [reflexivity|]. cbn [perr pst].
-  rewrite (cur3_lpos _ _ _ _ Hc). auto.
+  intros Hc -> Hoff HP. unfold fail_at. eexists _, a, tok. split; [reflexivity|]. cbn [perr pst prd pz pneed].
+  rewrite (cur3_lpos _ _ _ _ Hc). rewrite Hoff. auto 10.
 Qed.
 
+Definition anyb (_ : bool) : Prop := True.
+
 (* --- a closing bracket that does not match the innermost open container (or none is open) --------- *)
-Theorem rejects_closer_proof : forall p a tok lead c r nd state,
+Theorem rejects_closer_strong : forall p a tok lead c r nd state,
   cur3 (pz p) a tok (lead ++ c :: r) -> lead_ok p lead nd -> top (pst p) = Some state ->
   (c = 125 /\ state <> S_ObjectKey) \/ (c = 93 /\ state <> S_Array) ->
-  rejected_at p (len a + len tok + len lead).
+  rejected_to p (len a + len tok + len lead) (c :: r) anyb.
 Proof.
   intros p a tok lead c r nd state Hc Hl Htop Hk.
   assert (Hws : is_ws (hd0 (c :: r)) = false /\ hd0 (c :: r) <> 44).
   { cbn [hd0]. unfold is_ws. destruct Hk as [(-> & _)|(-> & _)]; split; lia. }
   destruct (next_front p a tok lead (c :: r) nd state Hc Hl (proj1 Hws) (proj2 Hws) Htop) as (z1 & H1 & Hn).
-  cbn [hd0] in Hn. unfold rejected_at. rewrite Hn. unfold next_body.
+  cbn [hd0] in Hn. unfold rejected_to. rewrite Hn. unfold next_body.
   pose proof (cur3_skip _ _ _ _ H1) as H2.
   assert (Hoff : len (a ++ tok ++ lead) + len (@nil Z) = len a + len tok + len lead)
     by (rewrite len_app3, len_nil; lia).
   destruct Hk as [(-> & Hs)|(-> & Hs)].
   - replace (nd && negb (125 =? 125) && negb (125 =? 93) && negb (125 =? 0)) with false by (destruct nd; reflexivity).
     cbn [Z.eqb Pos.eqb]. replace (state =? S_ObjectKey) with false by lia. cbn [negb].
-    destruct (fail_rejected p _ _ _ _ (pst p) nd _ H2 eq_refl) as (p' & E & Hp & Hst).
-    exists p'. rewrite Hoff in Hp. auto.
+    apply (fail_to p _ _ _ _ nd _ anyb _ H2 eq_refl Hoff I).
   - replace (nd && negb (93 =? 125) && negb (93 =? 93) && negb (93 =? 0)) with false by (destruct nd; reflexivity).
     cbn [Z.eqb Pos.eqb]. replace (state =? S_Array) with false by lia. cbn [negb].
-    destruct (fail_rejected p _ _ _ _ (pst p) true _ H2 eq_refl) as (p' & E & Hp & Hst).
-    exists p'. rewrite Hoff in Hp. auto.
+    apply (fail_to p _ _ _ _ true _ anyb _ H2 eq_refl Hoff I).
 Qed.
 
+Theorem rejects_closer_proof : forall p a tok lead c r nd state,
+  cur3 (pz p) a tok (lead ++ c :: r) -> lead_ok p lead nd -> top (pst p) = Some state ->
+  (c = 125 /\ state <> S_ObjectKey) \/ (c = 93 /\ state <> S_Array) ->
+  rejected_at p (len a + len tok + len lead).
+Proof. intros. eapply rejected_to_at. eapply rejects_closer_strong; eauto. Qed.
+
 (* --- a value has been completed (needComma) and something other than , ] } or the end follows -------- *)
+Theorem rejects_missing_comma_strong : forall p a tok w c r state,
+  cur3 (pz p) a tok (w ++ c :: r) -> ws w -> pneed p = true -> top (pst p) = Some state ->
+  is_ws c = false -> c <> 44 -> c <> 125 -> c <> 93 -> c <> 0 ->
+  rejected_to p (len a + len tok + len w) (c :: r) (fun n => n = true).
+Proof.
+  intros p a tok w c r state Hc Hw Hneed Htop Hws H44 H125 H93 H0.
+  destruct (next_front p a tok w (c :: r) (pneed p) state Hc (lead_plain p w Hw) Hws H44 Htop) as (z1 & H1 & Hn).
+  cbn [hd0] in Hn. unfold rejected_to. rewrite Hn. unfold next_body. rewrite Hneed.
+  replace (true && negb (c =? 125) && negb (c =? 93) && negb (c =? 0)) with true by lia.
+  pose proof (cur3_skip _ _ _ _ H1) as H2.
+  apply (fail_to p _ _ _ _ true _ (fun n => n = true) _ H2 eq_refl); [|reflexivity].
+  rewrite len_app3, len_nil. lia.
+Qed.
+
 Theorem rejects_missing_comma_proof : forall p a tok w c r state,
   cur3 (pz p) a tok (w ++ c :: r) -> ws w -> pneed p = true -> top (pst p) = Some state ->
   is_ws c = false -> c <> 44 -> c <> 125 -> c <> 93 -> c <> 0 ->
   rejected_at p (len a + len tok + len w).
+Proof. intros. eapply rejected_to_at. eapply rejects_missing_comma_strong; eauto. Qed.
+
+(* --- a comma where no comma may stand: at the top level or after a key ----------------------------------- *)
+Theorem rejects_comma_strong : forall p a tok w r state,
+  cur3 (pz p) a tok (w ++ 44 :: r) -> ws w -> top (pst p) = Some state ->
+  state <> S_Array -> state <> S_ObjectKey ->
+  rejected_to p (len a + len tok + len w) (44 :: r) anyb.
 Proof.
-  intros p a tok w c r state Hc Hw Hneed Htop Hws H44 H125 H93 H0.
-  destruct (next_front p a tok w (c :: r) (pneed p) state Hc (lead_plain p w Hw) Hws H44 Htop) as (z1 & H1 & Hn).
-  cbn [hd0] in Hn. unfold rejected_at. rewrite Hn. unfold next_body. rewrite Hneed.
-  replace (true && negb (c =? 125) && negb (c =? 93) && negb (c =? 0)) with true by lia.
-  pose proof (cur3_skip _ _ _ _ H1) as H2.
-  destruct (fail_rejected p _ _ _ _ (pst p) true _ H2 eq_refl) as (p' & E & Hp & Hst).
-  exists p'. rewrite len_app, len_nil in Hp. rewrite len_app in Hp.
-  replace (len a + (len tok + len w) + 0) with (len a + len tok + len w) in Hp by lia. auto.
+  intros p a tok w r state Hc Hw Htop Hs3 Hs1. unfold rejected_to, next.
+  destruct (move_ws_spec _ _ _ _ Hc) as (z0 & Hm & H0). rewrite Hm. cbn [option_bind].
+  destruct (takew_ws w (44 :: r) Hw eq_refl) as [E1 E2]. rewrite E1, E2 in H0.
+  rewrite (cur3_pk0 _ _ _ _ H0). cbn [option_bind hd0]. rewrite Htop. cbn [option_bind].
+  unfold next_comma. rewrite Z.eqb_refl.
+  replace (negb (state =? S_Array) && negb (state =? S_ObjectKey)) with true by lia. cbn [option_bind].
+  apply (fail_to p _ _ _ _ (pneed p) _ anyb _ H0 eq_refl); [|exact I]. rewrite len_app. lia.
 Qed.
 
 (* needComma is set by every unit that completes a value *)
@@ -101,28 +137,27 @@ Proof.
   destruct (takew_ws w2 s2 Hw Hws) as [E1 E2]. rewrite E1, E2 in H4.
   rewrite (cur3_pk0 _ _ _ _ H4). cbn [option_bind].
   replace (negb (hd0 s2 =? 58)) with true by lia.
-  destruct (fail_rejected p _ _ _ _ (pst p) false _ H4 eq_refl) as (p' & E & Hp & Hst').
-  exists p'. split; [exact E|]. split; [|exact Hst'].
-  rewrite Hp. f_equal. rewrite <- Ek. rewrite !len_app. lia.
+  destruct (fail_to p _ _ _ _ false (len a + len tok + len lead + len k + len w2) anyb _ H4 eq_refl)
+    as (p' & a' & tok' & E & Hp & Hst' & _); [|exact I|].
+  { rewrite <- Ek. rewrite !len_app. lia. }
+  exists p'. auto.
 Qed.
 
 (* --- in key position, something that is not a string (and not one of , } { [ ) ------------------------- *)
-Theorem rejects_nonstring_key_proof : forall p a tok lead s2 nd st,
+Theorem rejects_nonstring_key_strong : forall p a tok lead s2 nd st,
   cur3 (pz p) a tok (lead ++ s2) -> lead_ok p lead nd -> pst p = S_ObjectKey :: st ->
   is_ws (hd0 s2) = false ->
   hd0 s2 <> 34 -> hd0 s2 <> 44 -> hd0 s2 <> 125 -> hd0 s2 <> 123 -> hd0 s2 <> 91 ->
-  rejected_at p (len a + len tok + len lead).
+  rejected_to p (len a + len tok + len lead) s2 anyb.
 Proof.
   intros p a tok lead s2 nd st Hc Hl Hst Hws H34 H44 H125 H123 H91.
   assert (Htop : top (pst p) = Some S_ObjectKey) by (rewrite Hst; reflexivity).
   destruct (next_front p a tok lead s2 nd S_ObjectKey Hc Hl Hws H44 Htop) as (z1 & H1 & Hn).
-  unfold rejected_at. rewrite Hn. unfold next_body.
+  unfold rejected_to. rewrite Hn. unfold next_body.
   pose proof (cur3_skip _ _ _ _ H1) as H2.
-  assert (Hfin : forall need, exists p', fail_at p (skip z1) (pst p) need = Some ((G_Error, None), p') /\
-                              perr p' = Some (len a + len tok + len lead) /\ pst p' = pst p).
-  { intros need. destruct (fail_rejected p _ _ _ _ (pst p) need _ H2 eq_refl) as (p' & E & Hp & Hst').
-    exists p'. rewrite len_app, len_nil in Hp. rewrite len_app in Hp.
-    replace (len a + (len tok + len lead) + 0) with (len a + len tok + len lead) in Hp by lia. auto. }
+  assert (Hoff : len (a ++ tok ++ lead) + len (@nil Z) = len a + len tok + len lead)
+    by (rewrite len_app3, len_nil; lia).
+  pose proof (fun need => fail_to p _ _ _ _ need _ anyb _ H2 eq_refl Hoff I) as Hfin.
   destruct (nd && negb (hd0 s2 =? 125) && negb (hd0 s2 =? 93) && negb (hd0 s2 =? 0)); [apply Hfin|].
   replace (hd0 s2 =? 123) with false by lia. replace (hd0 s2 =? 125) with false by lia.
   replace (hd0 s2 =? 91) with false by lia.
@@ -130,6 +165,13 @@ Proof.
   { cbn [S_ObjectKey S_Array Z.eqb Pos.eqb negb]. apply Hfin. }
   cbn [S_ObjectKey Z.eqb Pos.eqb]. unfold next_key. replace (negb (hd0 s2 =? 34)) with true by lia. apply Hfin.
 Qed.
+
+Theorem rejects_nonstring_key_proof : forall p a tok lead s2 nd st,
+  cur3 (pz p) a tok (lead ++ s2) -> lead_ok p lead nd -> pst p = S_ObjectKey :: st ->
+  is_ws (hd0 s2) = false ->
+  hd0 s2 <> 34 -> hd0 s2 <> 44 -> hd0 s2 <> 125 -> hd0 s2 <> 123 -> hd0 s2 <> 91 ->
+  rejected_at p (len a + len tok + len lead).
+Proof. intros. eapply rejected_to_at. eapply rejects_nonstring_key_strong; eauto. Qed.
 
 (* ... but an opening bracket in key position is NOT rejected: the document {[1]} is not valid JSON and is
    parsed to the end of the input without any error; the second unit is a StartArray *)
@@ -147,21 +189,18 @@ Definition illegal_start (c : Z) : Prop :=
   is_ws c = false /\ is_digit c = false /\
   c <> 123 /\ c <> 125 /\ c <> 91 /\ c <> 93 /\ c <> 44 /\ c <> 34 /\ c <> 45 /\ c <> 116 /\ c <> 102 /\ c <> 110.
 
-Theorem error_at_illegal_byte_proof : forall p a tok lead c r nd state,
+Theorem error_at_illegal_byte_strong : forall p a tok lead c r nd state,
   cur3 (pz p) a tok (lead ++ c :: r) -> lead_ok p lead nd -> top (pst p) = Some state -> prd p = 0 ->
   illegal_start c ->
-  rejected_at p (len a + len tok + len lead).
+  rejected_to p (len a + len tok + len lead) (c :: r) anyb.
 Proof.
   intros p a tok lead c r nd state Hc Hl Htop Hprd (Hws & Hdig & H1' & H2' & H3' & H4' & H5' & H6' & H7' & H8' & H9' & H10').
   destruct (next_front p a tok lead (c :: r) nd state Hc Hl Hws H5' Htop) as (z1 & H1 & Hn).
-  cbn [hd0] in Hn. unfold rejected_at. rewrite Hn. unfold next_body.
+  cbn [hd0] in Hn. unfold rejected_to. rewrite Hn. unfold next_body.
   pose proof (cur3_skip _ _ _ _ H1) as H2.
   assert (Hoff : len (a ++ tok ++ lead) + len (@nil Z) = len a + len tok + len lead).
   { rewrite len_app3, len_nil. lia. }
-  assert (Hfin : forall need, exists p', fail_at p (skip z1) (pst p) need = Some ((G_Error, None), p') /\
-                              perr p' = Some (len a + len tok + len lead) /\ pst p' = pst p).
-  { intros need. destruct (fail_rejected p _ _ _ _ (pst p) need _ H2 eq_refl) as (p' & E & Hp & Hst').
-    exists p'. rewrite Hoff in Hp. auto. }
+  pose proof (fun need => fail_to p _ _ _ _ need _ anyb _ H2 eq_refl Hoff I) as Hfin.
   destruct (nd && negb (c =? 125) && negb (c =? 93) && negb (c =? 0)); [apply Hfin|].
   replace (c =? 123) with false by lia. replace (c =? 125) with false by lia.
   replace (c =? 91) with false by lia. replace (c =? 93) with false by lia.
@@ -185,12 +224,15 @@ Proof.
   { unfold r_err. rewrite Hprd. cbn [Z.eqb negb orb]. rewrite (cur3_at_end _ _ _ _ H4).
     pose proof (len_pos_cons c r). lia. }
   rewrite Hr. cbn [negb]. rewrite andb_true_r.
-  assert (Hfin4 : exists p', fail_at p z4 (pst p) nd = Some ((G_Error, None), p') /\
-                             perr p' = Some (len a + len tok + len lead) /\ pst p' = pst p).
-  { destruct (fail_rejected p _ _ _ _ (pst p) nd _ H4 eq_refl) as (p' & E & Hp & Hst').
-    exists p'. rewrite Hoff in Hp. auto. }
+  pose proof (fail_to p _ _ _ _ nd _ anyb _ H4 eq_refl Hoff I) as Hfin4.
   destruct (c =? 0); exact Hfin4.
 Qed.
+
+Theorem error_at_illegal_byte_proof : forall p a tok lead c r nd state,
+  cur3 (pz p) a tok (lead ++ c :: r) -> lead_ok p lead nd -> top (pst p) = Some state -> prd p = 0 ->
+  illegal_start c ->
+  rejected_at p (len a + len tok + len lead).
+Proof. intros. eapply rejected_to_at. eapply error_at_illegal_byte_strong; eauto. Qed.
 
 (* non-vacuity: the bytes [1 }] after the two units [ and 1 *)
 Example ex_rejects_closer : exists p a tok, cur3 (pz p) a tok ([32] ++ 125 :: [93]) /\ lead_ok p [32] true /\
